@@ -7,6 +7,7 @@ of queueMsg / sendMsg / takeMsg / die / reset / clock ticks / MOTD end / PONG / 
 arbitrary state `s`; `life c now ops` = the same from a freshly constructed `Irc`.
 -/
 import LimnoriaModel.C19.Fresh
+import LimnoriaModel.C19.Reconnect
 namespace C19
 open Py List
 
@@ -194,6 +195,7 @@ theorem quit_drains (s : Irc) (op : Op) (h : Ev.driverDie ∈ (step s op).2) :
   | connected => cases h
   | pong => cases h
   | capEcho b => cases h
+  | capLabel b => cases h
   | config c => simp [step] at h
 
 /-! ## throttle and JOIN rate -/
@@ -299,7 +301,7 @@ theorem takeMsg_recursive (s : Irc) : takeMsg s = takeBody takeMsg s := takeMsg_
 /-- **A filter returning None consumes only that message** (fast queue): the call carries on with
 the next message exactly as if the dropped one had never been queued. -/
 theorem filter_no_stall_fast (s : Irc) (m : Msg) (rest : List Msg) (hf : s.fast = m :: rest)
-    (n : Nat) (hd : runFilters s.cfg.filters s.nextOid m = (none, n)) :
+    (n : Nat) (hd : runFilters s.chain s.nextOid m = (none, n)) :
     takeMsg s =
       ((takeMsg { s with fast := rest, nextOid := n }).1,
        .dropped true m s.now :: (takeMsg { s with fast := rest, nextOid := n }).2) :=
@@ -311,7 +313,7 @@ interval, no longer; with `conservation` nothing else is consumed). -/
 theorem filter_no_stall_queue (s : Irc) (hf : s.fast = []) (hq : s.queue.isEmpty = false)
     (ht : s.lastTake + s.cfg.throttle < s.now) (q' : Queue) (m : Msg)
     (hdq : s.queue.dequeue s.cfg.joinLimit s.now = (q', .msg m))
-    (n : Nat) (hd : runFilters s.cfg.filters s.nextOid m = (none, n)) :
+    (n : Nat) (hd : runFilters s.chain s.nextOid m = (none, n)) :
     takeMsg s =
       ((takeMsg { s with lastTake := s.now, queue := q', nextOid := n }).1,
        .dropped false m s.now :: (takeMsg { s with lastTake := s.now, queue := q', nextOid := n }).2) :=
@@ -461,5 +463,99 @@ example : (run (init busyCfg 1000).1 (busyOps.take 12)).1.fast = [whoMsg 5, mode
 -- `filter_no_stall_queue`
 example : let s := (run (init { busyCfg with filters := [fun _ _ => none] } 1000).1 (busyOps.take 5)).1
     s.fast = [] ∧ s.queue.isEmpty = false ∧ s.lastTake + s.cfg.throttle < s.now + 2 := by decide
+
+/-! ## ping timeout → reconnect → reset -/
+
+/-- **Ping timeout**: with both queues empty, after the MOTD, pings on, the interval elapsed and the
+last PING unanswered, `takeMsg` makes the driver reconnect, which resets the Irc object: the result is
+exactly — nothing is returned to the driver — the state with both queues cleared, the throttle, ping
+and echo-message state of a new connection, and the registration messages (new objects), in order,
+alone in the fast queue. -/
+theorem ping_timeout_reconnects (s : Irc) (hz : s.zombie = false) (hf : s.fast = [])
+    (hq : s.queue.isEmpty = true) (hc : s.afterConnect = true) (hp : s.cfg.pingOn = true)
+    (ho : s.outstandingPing = true) (ht : s.lastPing + s.cfg.pingInterval < s.now) :
+    takeMsg s = (afterReset s, .driverReconnect :: .discarded [] ::
+      (connectObjs s.nextOid s.cfg.connectMsgs).map (Ev.accepted true)) := by
+  rw [takeMsg_idle_eq s hf hq]
+  have hpb : pingBranch s = (afterReset s, .driverReconnect :: .discarded [] ::
+      (connectObjs s.nextOid s.cfg.connectMsgs).map (Ev.accepted true)) := by
+    simp only [pingBranch, hc, hp, ht, ho, decide_true, Bool.and_self, if_true, reset_eq s hz,
+      pending_nil s hf hq]
+  rw [hpb]
+  simp [noMsg, afterReset, hz]
+
+/-- **`reset()` and the queues**: whatever was waiting is discarded (and reported as such — it is in
+the books of `conservation`), the queue of the new connection holds exactly the registration
+messages, in order, as new objects; the ping machinery is idle until the next end of MOTD, so a
+reconnect cannot trigger another one; a PING left unanswered on the old connection is forgotten. -/
+theorem reset_starts_clean (s : Irc) (hz : s.zombie = false) :
+    (reset s).1.queue = Queue.empty ∧
+    (reset s).1.fast.map (·.c) = s.cfg.connectMsgs ∧
+    (∀ m ∈ (reset s).1.fast, ∃ n, m.oid = .int n ∧ s.nextOid ≤ n) ∧
+    (reset s).2.head? = some (.discarded s.pending) ∧
+    (reset s).1.outstandingPing = false ∧
+    pingBranch (reset s).1 = ((reset s).1, []) := by
+  rw [reset_eq s hz]
+  refine ⟨rfl, connectObjs_contents _ _, ?_, rfl, rfl, pingBranch_idle _ rfl⟩
+  intro m hm
+  exact connectObjs_oids _ _ m hm
+
+/-- `reset()` of a dying bot queues nothing: the registration is not sent again -/
+theorem reset_zombie (s : Irc) (hz : s.zombie = true) :
+    (reset s).1.pending = [] ∧ (reset s).2 = .discarded s.pending :: killEvents := by
+  rw [reset_zombie_eq s hz]
+  exact ⟨by simp [afterResetZombie, Irc.pending, Queue.all, Queue.empty], rfl⟩
+
+/-! ## the labeled-response label -/
+
+theorem insertTag_has (k : Str) (v : Option Str) : ∀ (l : List (Str × Option Str)),
+    (insertTag k v l).any (fun kv => kv.1 = k) = true
+  | [] => by simp [insertTag]
+  | kv :: r => by
+    unfold insertTag
+    split
+    · simp
+    · simp only [List.any_cons, insertTag_has k v r, Bool.or_true]
+
+/-- **The label step**: with `labeled-response` negotiated the dequeued object itself (same identity)
+gets a `label` server tag unless it carries one; prefix, command and arguments are untouched; it never
+drops a message.  Without the capability the chain is just the outFilters. -/
+theorem label_step (n : Nat) (m : Msg) :
+    ∃ m', labelFilter n m = some m' ∧ m'.oid = m.oid ∧ hasLabel m'.c = true ∧
+      m'.c.pfx = m.c.pfx ∧ m'.c.cmd = m.c.cmd ∧ m'.c.args = m.c.args ∧
+      (hasLabel m.c = true → m' = m) := by
+  unfold labelFilter
+  by_cases h : hasLabel m.c = true
+  · exact ⟨m, by simp [h], rfl, h, rfl, rfl, rfl, fun _ => rfl⟩
+  · refine ⟨⟨m.oid, { m.c with tags := insertTag labelKey (some (['a', 'u', 't', 'o'] ++ natDec n)) m.c.tags }⟩,
+      by rw [if_neg h], rfl, ?_, rfl, rfl, rfl, fun h' => absurd h' h⟩
+    unfold hasLabel
+    exact insertTag_has _ _ _
+
+theorem chain_cases (s : Irc) :
+    (s.labelAcked = true → s.chain = labelFilter :: s.cfg.filters) ∧
+    (s.labelAcked = false → s.chain = s.cfg.filters) := by
+  constructor <;> intro h <;> simp [Irc.chain, h]
+
+/-- **Every message handed to the driver is labelled** once `labeled-response` is negotiated (here
+with no outFilter in the way: a filter may build a new message without the tag): the `if msg:` block
+of `takeMsg` never drops it and what comes out carries a label. -/
+theorem delivered_is_labeled (s : Irc) (m : Msg) (hl : s.labelAcked = true) (hf : s.cfg.filters = []) :
+    match (deliver s m).2 with
+    | .out o => hasLabel o.c = true ∧ o.oid = m.oid
+    | .lost o => hasLabel o.c = true ∧ o.oid = m.oid
+    | .dropped => False := by
+  obtain ⟨m', h1, h2, h3, _⟩ := label_step s.nextOid m
+  have hr : runFilters s.chain s.nextOid m = (some m', s.nextOid + 1) := by
+    rw [(chain_cases s).1 hl, hf]
+    simp only [runFilters, h1]
+  unfold deliver
+  rw [hr]
+  simp only
+  by_cases he : (isEchoCmd m'.cmd && !s.echoAcked) = true
+  · by_cases hm : m'.oid ∈ s.echoed
+    · simp only [he, hm, if_true]; exact ⟨h3, h2⟩
+    · simp only [he, hm, if_true, if_false]; exact ⟨h3, h2⟩
+  · simp only [he, if_false]; exact ⟨h3, h2⟩
 
 end C19
